@@ -23,19 +23,29 @@ THEOREMS = [_T + n for n in (
     'C08_cte_compositional', 'C08_not_full')]
 ASSUME = [
     'SQL semantics of the theorems = MindsVerif.Sem (Int|Str|Null, 3-valued logic, list-of-rows tables, joins of every '
-    'kind); validated against sqlite3 3.40 by the plan2 correspondence stream of this run (model evalQuery vs sqlite, '
+    'kind); validated against sqlite3 3.40 by the plan2 correspondence streams of this run (model evalQuery vs sqlite, '
     'model execPlan vs the reference executor running the REAL plan)',
-    'PlanJoinTablesQuery (check_query_conditions, check_use_limit, get_filters_from_join_conditions, process_table) is '
-    'hand-modelled for the two-table fragment (Sem.plan); tie = skeleton correspondence against real plans',
+    'PlanJoinTablesQuery (check_query_conditions, mark_nullable_tables / filter_accepts_null, check_use_limit, '
+    'where_is_applied_before_join, get_filters_from_join_conditions, process_table) is hand-modelled for the two-table '
+    'fragment (Sem.plan) and, for mark_nullable_tables, for chains of any length (Sem.markNullable); ties = skeleton '
+    'correspondence on generated fragment queries and the exhaustive black-box chain-nullable correspondence (all 2-4 table '
+    'chains of join spellings)',
+    'C08_partial_model (execPlan (plan q) db = evalQuery q db for all databases) covers every two-table query satisfying '
+    'the decidable condition Sem.planSound q = (plan q).limit0.isNone || q.kind.isLeft, i.e. every query without LIMIT (all '
+    'join kinds, any WHERE tree) and every LEFT-join query; the driver reports planSound per case and this run checks that '
+    'the REAL plan is right on every such case (plan2-theorem)',
     'step meaning = docstrings of planner/steps.py as implemented by tools/harness/planexec.py (dataframes keep '
-    '(table alias, column); SubSelectStep resolves by column name, QueryStep/JoinStep by alias+name); fetch queries are '
-    'printed with the library\'s own str(query) and executed by sqlite3',
-    'the impl-level probe (typed query generator x small table contents) is search, not proof; all queries beyond the '
-    'two-table fragment (3-way joins, IN/NOT IN subqueries, UNION, CTE, nested selects, GROUP BY, api integrations) are '
-    'covered by the probe only',
-    'C08_partial_model (execPlan (plan q) db = evalQuery q db) covers every two-table query (all join kinds, any WHERE '
-    'tree, LIMIT) satisfying the decidable side condition Sem.planSound (= LIMIT not pushed or LEFT join: every query without LIMIT and every LEFT-join query satisfies it); the driver reports planSound per case and the '
-    'run checks that the REAL plan is right on every such case',
+    '(table alias, column); SubSelectStep resolves by column name, QueryStep/JoinStep by alias+name; `OFFSET n` alone skips n '
+    'rows); fetch queries are printed with the library\'s own str(query) and executed by sqlite3',
+    'the impl-level probe (typed query generator x small table contents) is search, not proof; everything beyond the Lean '
+    'fragment (pushdown into later tables of 3-4 table chains, sub-selects / CTEs as operands, CTE names colliding with real '
+    'table names in every table position, IN / NOT IN / scalar sub-queries, UNION / INTERSECT / EXCEPT, nested selects, GROUP '
+    'BY, ORDER BY + LIMIT / OFFSET with ties, api-type integrations) is covered by the probe only; EXISTS over a planned '
+    'sub-query, window functions, predictors and raw_query fetches are not generated',
+    'a failing case counts as a known finding only if executing the same real plan without one kind of pushdown repairs it '
+    'AND the plan shape violates the side condition of the corresponding theorem AND that signature is an OPEN entry '
+    '(currently only limit/nonleft-join and limit/offset-below-join, both pinned by the library\'s tests); fixed entries are '
+    'replayed as regression cases',
 ]
 
 COLIDX = {'id': 0, 'x': 1, 'y': 2}
@@ -429,6 +439,15 @@ CASES = [
      {('int1', 'ta'): [(1, 0, 0), (2, 1, 1)]}),
     ('project', 'WITH ta AS (SELECT id, x, y FROM int1.tb) SELECT ta.x, p.y FROM ta LEFT JOIN int1.ta AS p ON ta.id = p.id', [], '', None,
      {('int1', 'ta'): [(1, 0, 1)], ('int1', 'tb'): [(1, 2, 2)]}),
+    # … and the qualified real table in a plain FROM / a nested FROM / an IN sub-query / a UNION side (the CTE is used too)
+    ('default', 'WITH tc AS (SELECT id, x, y FROM int1.ta) SELECT tc.x, tc.y FROM int2.tc WHERE tc.x IN (SELECT x FROM tc)', [], '', None,
+     {('int1', 'ta'): [(1, 0, 0)], ('int2', 'tc'): [(1, 0, 2)]}),
+    ('project', 'WITH tc AS (SELECT id, x, y FROM int1.ta) SELECT s.x, s.y FROM (SELECT id, x, y FROM int2.tc) AS s WHERE s.x IN (SELECT x FROM tc)', [], '', None,
+     {('int1', 'ta'): [(1, 0, 0)], ('int2', 'tc'): [(1, 0, 2)]}),
+    ('default', 'WITH tc AS (SELECT id, x, y FROM int1.ta) SELECT a.x, a.y FROM int3.te AS a WHERE a.x IN (SELECT x FROM int2.tc) AND a.y IN (SELECT y FROM tc)', [], '', None,
+     {('int1', 'ta'): [(1, 0, 0)], ('int2', 'tc'): [(1, 1, 2)], ('int3', 'te'): [(1, 1, 0)]}),
+    ('project', 'WITH tc AS (SELECT id, x, y FROM int1.ta) SELECT x, y FROM tc UNION ALL SELECT x, y FROM int2.tc', [], '', None,
+     {('int1', 'ta'): [(1, 0, 0)], ('int2', 'tc'): [(1, 1, 2)]}),
     # multi-key ORDER BY + LIMIT over a LEFT JOIN, ties in the leading key across the limit boundary
     ('names', 'SELECT p.x, q.y FROM int1.ta AS p LEFT JOIN int2.tc AS q ON p.id = q.id', [0, 1], ' ORDER BY p.x, q.y', 1,
      {('int1', 'ta'): [(1, 0, 0), (2, 0, 0)], ('int2', 'tc'): [(1, 0, 2), (2, 0, 1)]}),
